@@ -544,6 +544,8 @@ def expr_coq(t, idx=None, path=()):
 
 
 def scal_coq(x):
+    if isinstance(x, complex):
+        return "(SI 1%Z)" if x != 0 else "(SI 0%Z)"          # truthiness of a complex number: non-zero
     if isinstance(x, (bool, np.bool_)):
         return f"(SB {g.b(x)})"
     if isinstance(x, (int, np.integer)):
@@ -998,7 +1000,7 @@ def gen_setter(rng, tier):
     nd = len(n)
     ncell = math.prod(n)
     kind = rng.choice(["none", "const", "const", "boolarr", "intarr", "floatarr", "list", "trail1", "bcast", "bcast",
-                       "badshape", "callable", "callable", "str", "zerod", "field", "objbool"])
+                       "badshape", "callable", "callable", "str", "zerod", "field", "objbool", "nparr", "nparr", "npconst"])
     c["how"] = rng.choice(["ctor", "assign"])
     c["nvdim"] = rng.choice([1, 3])
 
@@ -1006,8 +1008,17 @@ def gen_setter(rng, tier):
         if kind_ == "bool":
             return [rng.random() < 0.6 for _ in range(k)]
         if kind_ == "int":
-            return [rng.choice([0, 0, 1, 2, -1, 7]) for _ in range(k)]
-        return [rng.choice([0.0, -0.0, 0.5, 1.0, -2.5, float("nan"), 1e-300, float("inf")]) for _ in range(k)]
+            return [rng.choice([0, 0, 1, 2, -1, 7, 2 ** 40, 256]) for _ in range(k)]
+        if kind_ == "uint8":
+            return [rng.choice([0, 0, 1, 2, 255, 128]) for _ in range(k)]
+        if kind_ == "int8":
+            return [rng.choice([0, 0, 1, -1, -128, 127]) for _ in range(k)]
+        if kind_ == "float32":
+            return [rng.choice([0.0, -0.0, 0.5, 1e-30, 1e-300, -2.5, 2.0 ** 100]) for _ in range(k)]
+        if kind_ == "complex":
+            return [rng.choice([[0, 0], [0, 0], [0, 1], [1, 0], [-2, 0.5], [0, -1e-300]]) for _ in range(k)]
+        return [rng.choice([0.0, -0.0, 0.5, 1.0, -2.5, float("nan"), 1e-300, float("inf"), 2.0 ** -200, 2.0 ** 300])
+                for _ in range(k)]
     if kind == "none":
         c["v"] = ["none"]
     elif kind == "const":
@@ -1015,6 +1026,12 @@ def gen_setter(rng, tier):
     elif kind in ("boolarr", "intarr", "floatarr", "list", "objbool"):
         dt = {"boolarr": "bool", "intarr": "int", "floatarr": "float", "objbool": "bool"}.get(kind, rng.choice(["bool", "int", "float"]))
         c["v"] = ["array", list(n), dt, cells(dt, ncell), kind == "list"]
+    elif kind == "nparr":
+        dt = rng.choice(["uint8", "int8", "float32", "complex"])
+        sh = rng.choice([list(n), list(n) + [1]])
+        c["v"] = ["array", sh, dt, cells(dt, ncell), False]
+    elif kind == "npconst":
+        c["v"] = ["const", rng.choice([0, 1, 2]), rng.choice(["bool_", "int32", "uint8", "int64", "float32", "float64"])]
     elif kind == "trail1":
         dt = rng.choice(["bool", "int", "float"])
         c["v"] = ["array", list(n) + [1], dt, cells(dt, ncell), rng.random() < 0.3]
@@ -1302,11 +1319,16 @@ def decode_vinput(c, mesh, rng_vals=None):
     if v[0] == "none":
         return None, "VNone", None
     if v[0] == "const":
+        if len(v) > 2:
+            val = getattr(np, v[2])(v[1])
+            return val, f"(VScalar {scal_coq(val.item())})", None
         return v[1], f"(VScalar {scal_coq(v[1])})", None
     if v[0] == "str":
         return v[1], "VStr", None
     if v[0] == "array":
         _, sh, dt, cells, aslist = v
+        if dt == "complex":
+            cells = [complex(a, b) for a, b in cells]
         arr = np.array(cells, dtype=SETDT[dt]).reshape(sh)
         coq = f"(VArray {g.nl(sh)} {g.lst([scal_coq(x) for x in arr.reshape(-1).tolist()])})"
         if aslist:
@@ -1383,10 +1405,11 @@ def run_setter(c):
     if shape_ok:
         if v[0] == "none" and not mask.all():
             rec["oracle"].append("none-not-all-true")
-        if v[0] == "const" and not np.array_equal(mask, np.full(n, bool(v[1]))):
+        if v[0] == "const" and not np.array_equal(mask, np.full(n, bool(v[1]) if v[1] == v[1] else True)):
             rec["oracle"].append("constant-not-applied")
         if v[0] == "array" and list(v[1]) == list(n):
-            want = np.array(v[3], dtype=SETDT[v[2]]).reshape(n).astype(bool)
+            raw = [complex(a, b) for a, b in v[3]] if v[2] == "complex" else v[3]
+            want = np.array(raw, dtype=SETDT[v[2]]).reshape(n).astype(bool)
             if not np.array_equal(mask, want):
                 rec["oracle"].append("array-not-applied")
         if v[0] == "callable":
